@@ -1025,6 +1025,10 @@ class QuantityMeta(ClassWithDefinitionMeta):
         cls = super().__new__(mcs, name, bases, clsdict,
                               define_as=define_as)
         assert isinstance(cls, QuantityMeta)
+        # the class needs its own map of units before the reference unit is
+        # created, otherwise that unit gets registered in the map inherited
+        # from the base class
+        cls._unit_map = {}
         if ref_unit_symbol:
             cls._ref_unit = cls._make_ref_unit(ref_unit_symbol, ref_unit_name,
                                                ref_unit_def)
